@@ -25,7 +25,7 @@ let fn_line (ws : string list) : string =
   | ["length"; s] -> let s = str_arg s in both (out_int (impl_length s)) (out_int (spec_length s))
   | ["reverse"; s] -> let s = str_arg s in both (oc out_str (impl_reverse s)) (out_str (spec_reverse s))
   | ["concat"; a; b] -> let a = str_arg a and b = str_arg b in both (oc out_str (impl_concat a b)) (out_str (spec_concat a b))
-  | ["repeat"; s; n] -> let s = str_arg s in both (oc out_str (impl_repeat s (zi n))) (out_str (spec_repeat s (zi n)))
+  | ["repeat"; s; n] -> let s = str_arg s in both (oc out_str (impl_repeat s (zi n))) (out_str (spec_repeat_copies s (zi n)))
   | ["left"; s; n] -> let s = str_arg s in both (oc out_str (impl_left s (zi n))) (out_str (spec_left s (zi n)))
   | ["right"; s; n] -> let s = str_arg s in both (oc out_str (impl_right s (zi n))) (out_str (spec_right s (zi n)))
   | ["substring_from"; fuel; s; f] ->
@@ -46,7 +46,10 @@ let fn_line (ws : string list) : string =
     both (oc out_str (impl_replace s a b)) (out_str (spec_replace s a b))
   | ["translate"; s; a; b] ->
     let s = str_arg s and a = str_arg a and b = str_arg b in
-    both (oc out_str (impl_translate s a b)) (out_str (spec_translate s a b))
+    both (oc out_str (translate_map s a b)) (out_str (spec_translate s a b))
+  | ["upper"; s] -> let s = str_arg s in both (oc out_str (upper_ascii s)) (out_str (spec_upper_ascii s))
+  | ["lower"; s] -> let s = str_arg s in both (oc out_str (lower_ascii s)) (out_str (spec_lower_ascii s))
+  | ["initcap"; s] -> let s = str_arg s in both (oc out_str (initcap_ascii s)) (out_str (spec_initcap_ascii s))
   | ["ltrim"; s; p] -> let s = str_arg s and p = str_arg p in both (out_str (spec_ltrim s p)) (out_str (spec_ltrim s p))
   | ["rtrim"; s; p] -> let s = str_arg s and p = str_arg p in both (out_str (spec_rtrim s p)) (out_str (spec_rtrim s p))
   | ["btrim"; s; p] -> let s = str_arg s and p = str_arg p in both (out_str (spec_btrim s p)) (out_str (spec_btrim s p))
@@ -92,8 +95,41 @@ let like () =
     done
   with End_of_file -> ()
 
+(* sub-command `rx`: one call per line, TAB separated:
+     <bol 0/1> <eol 0/1> <regex s-expression> <string> <replacement>
+   regex: (lit N) (dot) (eps) (set <neg 0/1> (lo hi) ...) (cat a b) (alt a b) (star a)
+   ->  "<like B0/B1> <instr impl> <instr spec> <count> <replace S..>" *)
+let rec re_of_sexp (x : sexp) : re =
+  match x with
+  | L [A "lit"; A c] -> Chr (CLit (n_of_string c))
+  | L [A "dot"] -> Chr CDot
+  | L [A "eps"] -> Eps
+  | L (A "set" :: A neg :: rs) ->
+    Chr (CSet ((neg = "1"), List.map (function L [A lo; A hi] -> (n_of_string lo, n_of_string hi) | _ -> failwith "bad range") rs))
+  | L [A "cat"; a; b] -> Cat (re_of_sexp a, re_of_sexp b)
+  | L [A "alt"; a; b] -> Alt (re_of_sexp a, re_of_sexp b)
+  | L [A "star"; a] -> Star (re_of_sexp a)
+  | _ -> failwith "bad regex s-expression"
+
+let rx () =
+  try
+    while true do
+      let line = input_line stdin in
+      if line <> "" then
+        match String.split_on_char '\t' line with
+        | [bol; eol; sx; s; rep] ->
+          let p = { rx_bol = (bol = "1"); rx_body = re_of_sexp (parse_sexp sx); rx_eol = (eol = "1") } in
+          let s = str_arg s and rep = str_arg rep in
+          Printf.printf "%s %s %s %s %s\n"
+            (oc out_bool (impl_regexp_like p s)) (oc out_int (impl_regexp_instr p s)) (out_int (spec_regexp_instr p s))
+            (oc out_int (impl_regexp_count p s)) (oc out_str (impl_regexp_replace p s rep))
+        | _ -> failwith ("bad rx line: " ^ line)
+    done
+  with End_of_file -> ()
+
 let () =
   match Sys.argv with
+  | [| _; "rx" |] -> rx ()
   | [| _; "fn" |] -> fn ()
   | [| _; "like" |] -> like ()
   | _ -> prerr_endline "usage: text <fn|like>"; exit 2
